@@ -245,7 +245,32 @@ RegionAt(c, pos) == LET rs == Regions(c) IN rs[CHOOSE i \in 1..Len(rs) : rs[i].l
 \* enclosing length and, for an Interest, the parameters digest are recomputed, so the packet is well-formed,
 \* its signed portion is untouched and only the signature value differs.  The Interest's Name element itself
 \* is not edited at top level (which name the signature then covers is not defined by the statement).
-Ed(lvl, op, i, sig, dig) == [lvl |-> lvl, op |-> op, i |-> i, sig |-> sig, dig |-> dig]
+\* Value-preserving re-encodings of the signature VALUE (forger's edits like svext / svcut: the signed portion is
+\* untouched, every length and the parameters digest are fixed up, the packet stays well-formed).  A verifier that
+\* reads the value leniently - as a big-endian number, left- or right-justified to the expected size, cut to the
+\* expected size, through a BER instead of a DER decoder - accepts octets that are not the ones the signer produced;
+\* each of these wires "differs from the signed packet in its signature value": must-reject.
+\*   svpad1 / svpad3    1 / 3 zero octets put in front of the value
+\*   svlzcut            the first octet of the value removed; offered for a value whose first octet is 0x00
+\*   svtzcut            the last octet of the value removed; offered for a value whose last octet is 0x00
+\*   ECDSA (DER SEQUENCE of the INTEGERs r, s) - the same pair (r, s) in other octets:
+\*   svder-seql             the length of the SEQUENCE in the long form (81 LL)
+\*   svder-rl / svder-sl    the length of r / s in the long form
+\*   svder-rz / svder-sz    r / s with one more leading zero octet (non-minimal INTEGER)
+\* `need` is the VALUE CLASS of the genuine signature value that the edit is defined on: "any", "lz" (first octet
+\* zero) or "tz" (last octet zero).  Bytes are not modelled; the executor realises a class by re-signing varied
+\* content until the signer returns a value of that class (about 1 in 256 for every algorithm).  The classes are
+\* offered for the algorithms of the library whose value is an octet string of a fixed length (SvRaw) and, for the
+\* tail, for DER (SvDer); (r, n - s) is a different pair and stays outside (svneg below).
+SvRawKinds == {"rsa", "hmac", "ed25519", "digest", "digestI"}
+SvRaw(c) == c.sg.kind \in SvRawKinds /\ c.sg.a >= 2
+SvDer(c) == c.sg.kind = "ecdsa" /\ c.sg.a >= 8
+SvPadOps == {"svpad1", "svpad3"}
+SvDerOps == {"svder-seql", "svder-rl", "svder-sl", "svder-rz", "svder-sz"}
+SvClassOps == {"svlzcut", "svtzcut"}
+SvNeed(op) == IF op = "svlzcut" THEN "lz" ELSE IF op = "svtzcut" THEN "tz" ELSE "any"
+SvOps == {"svext1", "svext4", "svcut1"} \cup SvPadOps \cup SvDerOps \cup SvClassOps
+Ed(lvl, op, i, sig, dig) == [lvl |-> lvl, op |-> op, i |-> i, sig |-> sig, dig |-> dig, need |-> SvNeed(op)]
 TopEdits(c) ==
   LET R == Roles(c)  k == Len(R)
       sv == IF Signed(c) THEN IdxOf(R, "sigValue") ELSE 0
@@ -275,7 +300,10 @@ TopEdits(c) ==
      \* shows what the verifier does, with verdict "either".
      \cup (IF Signed(c) /\ c.sg.kind = "ecdsa" THEN { Ed("top", "svneg", sv, "either", IF NeedDigest(c) THEN "same" ELSE "na") } ELSE {})
      \cup (IF Signed(c) THEN { Ed("top", op, sv, "reject", IF NeedDigest(c) THEN "same" ELSE "na") :
-                                 op \in {"svext1", "svext4"} \cup (IF c.sg.a > 0 THEN {"svcut1"} ELSE {}) }
+                                 op \in {"svext1", "svext4"} \cup (IF c.sg.a > 0 THEN {"svcut1"} ELSE {})
+                                         \cup SvPadOps
+                                         \cup (IF SvRaw(c) THEN SvClassOps ELSE {})
+                                         \cup (IF SvDer(c) THEN SvDerOps \cup {"svtzcut"} ELSE {}) }
            ELSE {})
 
 NameEdits(c) ==
@@ -393,7 +421,12 @@ LawEdits(c) ==
               top == SignedRange(c)[Len(SignedRange(c))] IN
           (e.sig = "reject" <=> IF IsInterest(c) THEN top.lo < at /\ at <= top.hi
                                 ELSE top.lo < at /\ at < top.hi))
-    /\ (e.op \in {"svext1", "svext4", "svcut1"} => Signed(c) /\ R[e.i] = "sigValue" /\ e.sig = "reject")
+    \* every edit of the signature value alone - appended / dropped octets and the value-preserving re-encodings -
+    \* is must-reject, whatever value class it is defined on; with the digest recomputed the digest check still holds
+    /\ (e.op \in SvOps => /\ Signed(c) /\ R[e.i] = "sigValue" /\ e.sig = "reject" /\ e.dig \in {"same", "na"}
+                           /\ e.need = SvNeed(e.op)
+                           /\ (e.need # "any" => c.sg.a >= 2))       \* something is left of the value
+    /\ (e.op \notin SvOps => e.need = "any")
     /\ (e.lvl = "top" /\ NeedDigest(c) /\ e.op \in {"del", "dup", "lenp"} =>
           (e.dig = "fail" <=> Overlap(Iv(O[e.i], O[e.i] + Size(F.kids[e.i])), DigestRange(c))
                               \/ O[e.i] >= DigestRange(c).lo))
@@ -401,7 +434,12 @@ LawEdits(c) ==
           LET at == IF e.i <= Len(R) THEN O[e.i] ELSE Size(F) IN (e.dig = "fail" <=> at > DigestRange(c).lo))
 
 \* a signed packet always offers the forger's signature-value edits
-LawSvEdits(c) == Signed(c) => \E e \in Edits(c) : e.op = "svext1"
+\* ... and, for the library's own algorithms, the re-encodings on every value class
+OffersOp(c, op) == \E e \in Edits(c) : e.op = op /\ e.sig = "reject"
+LawSvEdits(c) == Signed(c) =>
+  /\ OffersOp(c, "svext1") /\ \A op \in SvPadOps : OffersOp(c, op)
+  /\ (c.sg.kind \in SvRawKinds /\ c.sg.a >= 2 => \A op \in SvClassOps : OffersOp(c, op))
+  /\ (c.sg.kind = "ecdsa" /\ c.sg.a >= 8 => \A op \in SvDerOps \cup {"svtzcut"} : OffersOp(c, op))
 Laws(c) == LawSvEdits(c) /\ LawOneElement(c) /\ LawShrink(c) /\ LawParseBack(c) /\ LawRanges(c) /\ LawDigestOp(c)
            /\ LawRegions(c) /\ LawEdits(c)
 
